@@ -11,6 +11,7 @@ search over (derivatives, required symbols consumed, consecutive insertions) WIT
 the greedy step.  Every real result is classified: sound?  shortest?  impossibility
 justified?
 """
+import collections
 import concurrent.futures
 import itertools
 import json
@@ -24,7 +25,7 @@ from vlib import cz, clist, copt
 import C18 as h18  # pattern enumerator / parser / derivative oracle (imported, not edited)
 
 KNOWN_KEY = "make_matching_sequence:greedy-continue"
-FUEL = 400000
+CASE_TY = "list Z * list (list token) * Z * list Z * Z * option (list Z)"
 GENERIC = "sequence_header .* end_of_sequence"
 PRIO_REAL = ["padding_data", "sequence_header"]
 
@@ -37,9 +38,21 @@ def impl():
 # ----------------------------------------------------------------------------------
 # running the real code (in worker processes; a pure function of the case)
 # ----------------------------------------------------------------------------------
+class CountingDeque(collections.deque):
+    """the search queue, counting the iterations of the `while queue` loop (one popleft each)"""
+    pops = 0
+
+    def popleft(self):
+        CountingDeque.pops += 1
+        return collections.deque.popleft(self)
+
+
 def run_real(case):
+    """-> (kind, result, number of loop iterations)"""
     init, pats, limit, prio = case
     from vc2_conformance import symbol_re as sr
+    sr.deque = CountingDeque  # same class, instrumented; the function's logic is untouched
+    CountingDeque.pops = 0
     kw = {}
     if limit is not None:
         kw["depth_limit"] = limit
@@ -47,11 +60,11 @@ def run_real(case):
         kw["symbol_priority"] = list(prio)
     try:
         out = sr.make_matching_sequence(list(init), *pats, **kw)
-        return ("ok", list(out))
+        return ("ok", list(out), CountingDeque.pops)
     except sr.ImpossibleSequenceError:
-        return ("imp", None)
+        return ("imp", None, CountingDeque.pops)
     except Exception as e:  # anything else is not something the function documents
-        return ("err", type(e).__name__)
+        return ("err", type(e).__name__, CountingDeque.pops)
 
 
 def run_all_real(cases, workers=16):
@@ -88,7 +101,7 @@ def coq_case(case, obs):
     toks = "[" + "; ".join(h18.coq_tokens(nm, h18.my_tokens(p)) for p in pats) + "]"
     o = copt([nm(s) for s in obs[1]], clist) if obs[0] == "ok" else "None"
     return "(%s, %s, %s, %s, %d, %s)" % (clist([nm(s) for s in init]), toks, cz(3 if limit is None else limit),
-                                         clist([nm(s) for s in (prio or [])]), FUEL, o)
+                                         clist([nm(s) for s in (prio or [])]), obs[2] + 1, o)
 
 
 # ----------------------------------------------------------------------------------
@@ -221,45 +234,58 @@ HAND = [
 ]
 
 
-def enumerated(ctx, sr):
-    """(kind, case) for the small alphabet {a, b, x}"""
+def subsequences(w, maxlen):
+    out = set()
+    for n in range(0, min(maxlen, len(w)) + 1):
+        for idx in itertools.combinations(range(len(w)), n):
+            out.add(tuple(w[i] for i in idx))
+    return out
+
+
+def enumerated(ctx, sr, ref):
+    """(kind, case) for the small alphabet {a, b, x}.
+    kind enum: pattern ASTs from the C18 enumerator x ALL required lists up to length L;
+    kinds words / words2: alternations of short words (the shape on which the greedy step loses
+    completeness) x the required lists that are subsequences of some jointly matched sequence
+    (so that a completion exists) + a few arbitrary ones."""
     rng = ctx.rng
     leaves = [("s", "a"), ("s", "b"), ("s", "x"), h18.ANY]
     memo, pool = {}, []
     for size in range(1, 7):
         pool += [r for r in h18.enum_asts(size, leaves, ("*", "?", "+"), memo)]
+    flexible = [r for r in pool if "." in h18.show(r) and "*" in h18.show(r)]
     L = ctx.pick(3, 4)
     inits = [list(t) for n in range(0, L + 1) for t in itertools.product("abx", repeat=n)]
 
-    def pick_pattern():
+    def pick_pattern(src=None):
         while True:
-            p = h18.show(rng.choice(pool))
+            p = h18.show(rng.choice(src or pool))
             if h18.real_parse(sr, p)[0] == 0:
                 return p
 
-    def rand_word(n):
-        return [rng.choice("abx") for _ in range(n)]
+    def word():
+        items = []
+        for s in [rng.choice("abx") for _ in range(rng.randrange(1, 5))]:
+            k = rng.random()
+            items.append("." if k < 0.15 else (s + "*" if k < 0.23 else (s + "?" if k < 0.31 else s)))
+        return " ".join(items)
 
     def word_pattern():
-        # an alternation of two concrete words, sometimes with a wildcard / starred symbol:
-        # the shape on which the greedy step loses completeness
-        def word():
-            items = []
-            for s in rand_word(rng.randrange(1, 5)):
-                k = rng.random()
-                items.append("." if k < 0.12 else (s + "*" if k < 0.2 else (s + "?" if k < 0.28 else s)))
-            return " ".join(items)
-        return "%s | %s" % (word(), word()) if rng.random() < 0.8 else word()
+        k = rng.random()
+        p = "%s | %s" % (word(), word()) if k < 0.75 else ("%s | %s | %s" % (word(), word(), word()) if k < 0.85 else word())
+        if rng.random() < 0.2:
+            p = "(%s) .*" % p
+        return p
 
     out = []
     nsets = ctx.pick(300, 5000)
     for i in range(nsets):
         k = rng.random()
-        if k < 0.45:
-            pats = [pick_pattern() for _ in range(rng.choice([1, 2, 2]))]
+        if k < 0.4:
+            pats = [pick_pattern()] + ([pick_pattern(flexible if rng.random() < 0.5 else None)] if rng.random() < 0.6 else [])
             kind = "enum"
         elif k < 0.8:
-            pats = [word_pattern()] + ([pick_pattern()] if rng.random() < 0.4 else [])
+            pats = [word_pattern()] + ([pick_pattern(flexible)] if rng.random() < 0.3 else [])
             kind = "words"
         else:
             pats = [word_pattern(), word_pattern()]
@@ -270,7 +296,21 @@ def enumerated(ctx, sr):
         limit = None if r < 0.75 else rng.choice([0, 1, 2, 4])
         if limit == 4 and L > 3:
             limit = 2
-        for init in inits:
+        if kind == "enum":
+            use = inits
+        else:
+            D0 = ref.exprs(pats)
+            lim = 3 if limit is None else limit
+            targets = set()
+            for seed in ([], ["a"], ["b"], ["x"], ["a", "b"], ["b", "x"], ["x", "a"], ["a", "a"], ["b", "a", "b"]):
+                w = ref.shortest(D0, seed, max(lim, 3), ("a", "b", "x", "."))
+                if w is not None and len(w) <= 7:
+                    targets.update(subsequences([s for s in w], L))
+            targets = [list(t) for t in sorted(targets) if "." not in t]
+            use = targets + [rng.choice(inits) for _ in range(6)]
+            if len(use) > 40:
+                use = [use[j] for j in sorted(rng.sample(range(len(use)), 40))]
+        for init in use:
             out.append((kind, (init, pats, limit, prio)))
     return out
 
@@ -283,7 +323,7 @@ def real_combinations(ctx, sr):
     tcs.append(("docstring:make_sequence", "(. padding_data)+ end_of_sequence"))
     tcs.append(("extra:aux-first", "sequence_header auxiliary_data .*"))
     lists = []
-    counts = ctx.pick([0, 1, 2, 3], [0, 1, 2, 3, 5, 8])
+    counts = ctx.pick([0, 1, 3], [0, 1, 2, 3, 5, 8])
     for pic in ["low_delay_picture", "high_quality_picture"]:
         for n in counts:
             lists.append([pic] * n)
@@ -347,7 +387,7 @@ def other_hash_seeds(ctx, cases, obs, seeds):
             continue
         res = json.loads(p.stdout)
         for i, (a, b) in enumerate(zip(res, obs)):
-            if tuple(a) != (b[0], b[1]) and list(a) != [b[0], b[1]]:
+            if list(a) != list(b):
                 diffs.append((seed, i, a, b))
     return diffs
 
@@ -357,13 +397,14 @@ def run(ctx):
     sr = impl()
     ref = Reference()
     ctx.extra["rule"] = (
-        "make_matching_sequence calls: (1) every required list up to length %d over {a,b,x} x %d sampled pattern sets (<= 2 patterns: pattern ASTs up to 6 nodes over "
-        "{a,b,x,.} with * ? +, alternations of short words), default and explicit depth_limit / symbol_priority; (2) the real combinations: the generic pattern + every level "
+        "make_matching_sequence calls: (1) %d sampled pattern sets over {a,b,x,.} (<= 2 patterns): pattern ASTs up to 6 nodes with * ? + x EVERY required list up to length %d "
+        "over {a,b,x}; alternations of short words x the required lists that are subsequences of a jointly matched sequence (+ arbitrary ones); default and explicit "
+        "depth_limit / symbol_priority; (2) the real combinations: the generic pattern + every level "
         "pattern of level_sequence_restrictions.csv x every test-case pattern literal found in test_cases/**/*.py (+ the docstring example) x picture / fragment lists, "
         "symbol_priority as in make_sequence; (3) hand-written and corpus cases. Non-trivial = the result differs from the required list (insertions were needed) or "
         "impossibility was reported. Oracle: exhaustive reference search without the greedy step over Brzozowski derivatives (bounded consecutive insertions)."
-        % (ctx.pick(3, 4), ctx.pick(300, 5000)))
-    tagged = load_corpus() + [("hand", c) for c in HAND] + real_combinations(ctx, sr) + enumerated(ctx, sr)
+        % (ctx.pick(300, 5000), ctx.pick(3, 4)))
+    tagged = load_corpus() + [("hand", c) for c in HAND] + real_combinations(ctx, sr) + enumerated(ctx, sr, ref)
     tagged = [(k, c) for k, c in tagged if hypothesis_ok(ref, c)]
     cases = [c for _k, c in tagged]
     obs = run_all_real(cases)
@@ -375,16 +416,26 @@ def run(ctx):
     big = [i for i, (k, _c) in enumerate(tagged) if k.startswith("real")]
     bad = set()
     failed = False
-    for name, idxs, shard in (("seq_small", small, ctx.pick(400, 800)), ("seq_real", big, ctx.pick(8, 12))):
-        b = ctx.coq_check_cases(name, imports, "chk_seq", [lits[i] for i in idxs], shard=shard, timeout=1500)
+    for name, idxs, shard in (("seq_small", small, ctx.pick(400, 800)), ("seq_real", big, ctx.pick(16, 16))):
+        b = ctx.coq_check_cases(name, imports, "chk_seq", [lits[i] for i in idxs], ty=CASE_TY, shard=shard, timeout=1500)
         if b is None:
             failed = True
         else:
             bad.update(idxs[j] for j in b)
-    # the theorems' hypothesis holds on every generated pattern (the harness' own eos_ok filtered them)
+    # the theorems' hypothesis (eos_ok, Coq's definition) holds on every generated pattern set
+    seen_ps, ps_lits = set(), []
+    for c in cases:
+        key = tuple(c[1])
+        if key not in seen_ps:
+            seen_ps.add(key)
+            nm = SortedNames(case_names(c))
+            ps_lits.append("[" + "; ".join(h18.coq_tokens(nm, h18.my_tokens(p)) for p in c[1]) + "]")
+    b = ctx.coq_check_cases("eos_ok", imports, "chk_eos_ok", ps_lits, ty="list (list token)", shard=1500, timeout=900)
+    if b:
+        ctx.obligation("corr:generated patterns satisfy the theorems' hypothesis eos_ok", False, "corr-shard", "%d pattern sets do not" % len(b))
     # order independence, sampled: candidate set enumerated in reverse inside the model
     sample = [i for i in small if i % 7 == 0][: ctx.pick(1500, 6000)]
-    b = ctx.coq_check_cases("seq_rev", imports, "chk_seq_rev", [lits[i] for i in sample], shard=ctx.pick(400, 800), timeout=1500)
+    b = ctx.coq_check_cases("seq_rev", imports, "chk_seq_rev", [lits[i] for i in sample], ty=CASE_TY, shard=ctx.pick(400, 800), timeout=1500)
     if b:
         ctx.obligation("corr:model result independent of the candidate set's enumeration order", False, "corr-shard",
                        "differs on %r" % [cases[sample[j]] for j in b[:5]])
@@ -427,7 +478,7 @@ def run(ctx):
     ctx.extra["known_finding_inputs_this_run"] = n_known
     ctx.note("%d calls, %d of them fail completeness/shortestness only and are reproduced by the greedy model" % (len(cases), n_known))
     ctx.trusted.append("C19: symbol names numbered per case in sorted order (alphabetical order = Z order, WILDCARD '.' = -1 sorts first); "
-                       "Python's sorted() is a stable sort by the key; patterns reach the model as token lists through the C18 model of parse_regex")
+                       "Python's sorted() is a stable sort by the key; the model's fuel is the number of loop iterations the real call made (counted by an instrumented deque class) + 1; patterns reach the model as token lists through the C18 model of parse_regex")
     ctx.trusted.append("C19 oracle: reference breadth-first search in tools/harness/C19.py over the derivative decision procedure of tools/harness/C18.py")
 
 
